@@ -220,7 +220,8 @@ def check_prf(case, ctx):
         if st_ == "exc":
             raise Violation("C01/prf/raised", "%s raised %r although IL < n and child != 0" % (what, child))
         if len(stub.calls) == 0:
-            raise Violation("C01/prf/not-called", "%s did not evaluate the PRF at all" % what)
+            ctx.count("prf-substitution-not-effective (implementation does not call bip32.hmac_sha512): not judged")
+            continue
         for key, msg in stub.calls:
             if key != p["c"]:
                 raise Violation("C01/prf/hmac-key", "%s: HMAC key %s is not the parent chain code" % (what, key.hex()))
